@@ -57,6 +57,119 @@ theorem convertKVs_ofKVs : ∀ kvs : List (String × Val), ∃ gs, C01.convertKV
     · simp only [C01.fixEmptyKVs, toKVs, h3, k3]
 end
 
+/-! ## documents without `!reset` / `!override` tags: the YAML-text entry point is the tree entry point -/
+
+open CV.Reset in
+mutual
+/-- no tag anywhere in the node -/
+def untagged : Reset.YNode → Bool
+  | .scalar .none _ => true
+  | .seq .none xs => untaggedL xs
+  | .map .none es => untaggedKV es
+  | _ => false
+def untaggedL : List Reset.YNode → Bool
+  | [] => true
+  | x :: r => untagged x && untaggedL r
+def untaggedKV : List (String × Reset.YNode) → Bool
+  | [] => true
+  | (_, x) :: r => untagged x && untaggedKV r
+end
+
+open CV.Reset in
+mutual
+theorem resolve_untagged : ∀ (n : YNode) (p : TPath), untagged n = true → resolve n p = (some n, [])
+  | .scalar t v, p, h => by
+    cases t <;> simp [untagged] at h; simp [resolve]
+  | .seq t xs, p, h => by
+    cases t <;> simp [untagged] at h
+    simp [resolve, resolveSeq_untagged xs p 0 h]
+  | .map t es, p, h => by
+    cases t <;> simp [untagged] at h
+    simp [resolve, resolveMap_untagged es p h]
+theorem resolveSeq_untagged : ∀ (xs : List YNode) (p : TPath) (i : Nat), untaggedL xs = true → resolveSeq xs p i = (xs, [])
+  | [], _, _, _ => by simp [resolveSeq]
+  | x :: r, p, i, h => by
+    simp only [untaggedL, Bool.and_eq_true] at h
+    simp [resolveSeq, resolve_untagged x _ h.1, resolveSeq_untagged r p (i + 1) h.2]
+theorem resolveMap_untagged : ∀ (es : List (String × YNode)) (p : TPath), untaggedKV es = true → resolveMap es p = (es, [])
+  | [], _, _ => by simp [resolveMap]
+  | (k, x) :: r, p, h => by
+    simp only [untaggedKV, Bool.and_eq_true] at h
+    simp [resolveMap, resolve_untagged x _ h.1, resolveMap_untagged r p h.2]
+end
+
+theorem readDoc_untagged (n : Reset.YNode) (h : untagged n = true) : Reset.readDoc n = (Reset.decode n, []) := by
+  simp [Reset.readDoc, resolve_untagged n _ h]
+
+open CV.Reset in
+mutual
+theorem applyNull_nil : ∀ (v : Val) (p : TPath), applyNull [] v p = v
+  | .null, _ => by simp [applyNull]
+  | .bool _, _ => by simp [applyNull]
+  | .int _, _ => by simp [applyNull]
+  | .float _, _ => by simp [applyNull]
+  | .str _, _ => by simp [applyNull]
+  | .seq xs, p => by simp [applyNull, applySeq_nil xs p 0]
+  | .map kvs, p => by simp [applyNull, applyKVs_nil kvs p]
+theorem applyKVs_nil : ∀ (kvs : KVs) (p : TPath), applyKVs [] kvs p = kvs
+  | [], _ => by simp [applyKVs]
+  | (k, e) :: r, p => by simp [applyKVs, matchesAny, applyNull_nil e _, applyKVs_nil r p]
+theorem applySeq_nil : ∀ (xs : List Val) (p : TPath) (i : Nat), applySeq [] xs p i = xs
+  | [], _, _ => by simp [applySeq]
+  | e :: r, p, i => by simp [applySeq, matchesAny, applyNull_nil e _, applySeq_nil r p (i + 1)]
+end
+
+/-- a document without tags goes through `processNode` exactly as its decoded tree goes through `processDoc` -/
+theorem processNode_untagged (c : Cfg) (dict : Val) (n : Reset.YNode) (cfg : KVs)
+    (h : untagged n = true) (hd : Reset.decode n = .map cfg) : processNode c dict n = processDoc c dict cfg := by
+  simp only [processNode, readDoc_untagged n h, hd, applyNull_nil, processDoc]
+
+/-! ## a tree written out as an untagged YAML node and read back -/
+
+mutual
+def nodeOf : Val → Reset.YNode
+  | .seq xs => .seq .none (nodesOf xs)
+  | .map kvs => .map .none (entriesOf kvs)
+  | .null => .scalar .none .null
+  | .bool b => .scalar .none (.bool b)
+  | .int i => .scalar .none (.int i)
+  | .float r => .scalar .none (.float r)
+  | .str s => .scalar .none (.str s)
+def nodesOf : List Val → List Reset.YNode
+  | [] => []
+  | v :: r => nodeOf v :: nodesOf r
+def entriesOf : List (String × Val) → List (String × Reset.YNode)
+  | [] => []
+  | (k, v) :: r => (k, nodeOf v) :: entriesOf r
+end
+
+mutual
+theorem nodeOf_spec : ∀ v : Val, untagged (nodeOf v) = true ∧ Reset.decode (nodeOf v) = v
+  | .null => ⟨rfl, rfl⟩
+  | .bool _ => ⟨rfl, rfl⟩
+  | .int _ => ⟨rfl, rfl⟩
+  | .float _ => ⟨rfl, rfl⟩
+  | .str _ => ⟨rfl, rfl⟩
+  | .seq xs => by
+    have h := nodesOf_spec xs
+    exact ⟨by simp [nodeOf, untagged, h.1], by simp [nodeOf, Reset.decode, h.2]⟩
+  | .map kvs => by
+    have h := entriesOf_spec kvs
+    exact ⟨by simp [nodeOf, untagged, h.1], by simp [nodeOf, Reset.decode, h.2]⟩
+theorem nodesOf_spec : ∀ xs : List Val, untaggedL (nodesOf xs) = true ∧ Reset.decodeL (nodesOf xs) = xs
+  | [] => ⟨rfl, rfl⟩
+  | v :: r => by
+    have h1 := nodeOf_spec v
+    have h2 := nodesOf_spec r
+    exact ⟨by simp [nodesOf, untaggedL, h1.1, h2.1], by simp [nodesOf, Reset.decodeL, h1.2, h2.2]⟩
+theorem entriesOf_spec : ∀ kvs : List (String × Val), untaggedKV (entriesOf kvs) = true ∧ Reset.decodeKV (entriesOf kvs) = kvs
+  | [] => ⟨rfl, rfl⟩
+  | (k, v) :: r => by
+    have h1 := nodeOf_spec v
+    have h2 := entriesOf_spec r
+    exact ⟨by simp [entriesOf, untaggedKV, h1.1, h2.1], by simp [entriesOf, Reset.decodeKV, h1.2, h2.2]⟩
+end
+
 /-! ## panics of a composition -/
 
 theorem bind_panic {α β : Type} {x : Out α} {f : α → Out β} {s : String} (h : x.bind f = .panic s) :
